@@ -6,7 +6,7 @@
 From PSA Require Import model.Bytes model.Checksum model.Layer model.Dhcp model.Clients model.Ipdb model.IpdbCheck spec.SpecCodec spec.SpecTable spec.SpecIpdb model.Server spec.Monitors.
 From PSA Require Import gen.GoFacts model.Sanitize model.Resolv spec.SpecResolv.
 From PSA Require Import model.Config spec.SpecConfig.
-From PSA Require Import model.Client.
+From PSA Require Import model.Client spec.MonitorC15 spec.SpecClientHistory.
 From PSA Require Import spec.SpecClient model.ClientRx model.Tmpl.
 From PSA Require Import model.Fs spec.SpecFs.
 From PSA Require model.Res.
@@ -393,13 +393,69 @@ Definition enc_action (a : action) : list N :=
   | AReturn t => [6; zn t]
   end.
 
+(* the harness's record with instants (monitor 1510): header fields beyond those of dec_cevent:
+   exchange: 12 = instant the exchange began, 13 = its kind on the wire; ARP check / sleep: 4 = instant; setiface: 5; purge: 2 *)
+Definition dec_oev (h mask routers dns domain : list N) : oev :=
+  let (ev, c) := dec_cevent h mask routers dns domain in
+  let g i := nth i h 0 in
+  let ti := match g 0%nat with 1 => 12%nat | 2 => 4%nat | 3 => 5%nat | 4 => 4%nat | _ => 2%nat end in
+  {| oe_ev := ev; oe_cancel := c; oe_t := Z.of_N (g ti); oe_kind := match g 0%nat with 1 => g 13%nat | _ => 0 end |}.
+Fixpoint dec_oevs (l : LL) : list oev :=
+  match l with
+  | h :: m :: r :: d :: dom :: rest => dec_oev h m r d dom :: dec_oevs rest
+  | _ => []
+  end.
+(* an observed action as written by the harness (the inverse of enc_action) *)
+Definition dec_action (x : list N) : action :=
+  let g i := nth i x 0 in
+  let t := Z.of_N (g 1%nat) in
+  match g 0%nat with
+  | 1 => AUnconfigure t
+  | 2 => AUp t
+  | 3 => let ml := N.to_nat (g 8%nat) in
+         let mask := firstn ml (skipn 9 x) in
+         let r1 := skipn (9 + ml) x in
+         let dl := N.to_nat (nth 0 r1 0) in
+         let dns := firstn dl (skipn 1 r1) in
+         let r2 := skipn (1 + dl) r1 in
+         let dom := firstn (N.to_nat (nth 0 r2 0)) (skipn 1 r2) in
+         ASetIface t {| nc_ip := g 3%nat; nc_mask := mask; nc_router := if g 4%nat =? 0 then None else Some (g 5%nat);
+                        nc_mtu := g 6%nat; nc_dns := dns; nc_domain := dom; nc_lease := Z.of_N (g 7%nat) |} (negb (g 2%nat =? 0))
+  | 4 => AExchange t (g 2%nat)
+  | 5 => ACrash t
+  | _ => AReturn t
+  end.
+(* number of observed actions, then the actions, then the record *)
+Definition c15_observed (a : LL) : list action * LL :=
+  let n := N.to_nat (argn a 0 2) in (map dec_action (firstn n (skipn 1 a)), skipn (1 + n) a).
+
 Definition dispatch_c15 (tag : N) (a : LL) : LL :=
   match tag with
+  (* monitor: [croute; horizon; number of actions], the observed actions, the record with instants *)
+  | 1510 => let (acts, evs) := c15_observed a in
+            match mon_C15 (negb (argn a 0 0 =? 0)) (Z.of_N (argn a 0 1)) (dec_oevs evs) acts with
+            | [] => [[1]]
+            | bad => [0 :: bad]
+            end
   | 1501 => map enc_action (filter (fun x => match x with
                                              | AReturn _ => false
                                              | AUnconfigure t | AUp t | ASetIface t _ _ | AExchange t _ | ACrash t => (t <=? Z.of_N (argn a 0 1))%Z
                                              end)
                              (run_script (negb (argn a 0 0 =? 0)) initial_client (dec_cevents (skipn 1 a))))
+  (* the same monitor on the model's own history for the script of 1501 (a test of the monitor against the proved automaton) *)
+  | 1511 => let croute := negb (argn a 0 0 =? 0) in
+            let horizon := Z.of_N (argn a 0 1) in
+            let script := dec_cevents (skipn 1 a) in
+            let evs := map (fun r => {| oe_ev := sr_ev r; oe_cancel := sr_cancel r; oe_t := c_now (sr_pre r); oe_kind := kind_of (c_phase (sr_pre r)) |})
+                           (run_steps croute initial_client script) in
+            let acts := filter (fun x => match x with
+                                         | AReturn _ => false
+                                         | AUnconfigure t | AUp t | ASetIface t _ _ | AExchange t _ | ACrash t => (t <=? horizon)%Z
+                                         end) (run_script croute initial_client script) in
+            match mon_C15 croute horizon evs acts with
+            | [] => [[1]]
+            | bad => [0 :: bad]
+            end
   | 1502 => [map zn (delays (Z.of_N gf_retx_first_ns) (map Z.of_N (arg a 0)))]
   | _ => [[99]]
   end.
